@@ -130,18 +130,34 @@ def run_task(eng, prover, task, out):
                                                              bs.dict_get(cache0, tkey) == fm2)))
     base = f"{rname}.get_type@{fi.qualname}/numpy={eng.mode.get('numpy')}"
     pre = st.copy()
+    # identifiers may fail transiently (a fault that says nothing about the value, e.g. RecursionError raised inside an
+    # ABC subclass hook at deep nesting): such a failure must never be turned into a verdict or into a cache entry
+    eng.mode["identifier_faults"] = True
     try:
         outs = eng.run_function(st, fi, [robj, v1])
     except Unsupported as e:
         out["unsupported"].append({"instance": f"{rname}.get_type", "reason": str(e)})
         return
+    finally:
+        eng.mode["identifier_faults"] = False
     n = 0
     for (x, r) in outs:
         n += 1
         ctx = {"path": n}
+        faulted = any(e[0] == "transient-fault" for e in x.events)
         if isinstance(r, Raise):
-            prover.goal(f"C19/{base}/raises-nothing", x, z3.BoolVal(False), info=ctx)
+            if not faulted:
+                prover.goal(f"C19/{base}/raises-nothing", x, z3.BoolVal(False), info=ctx)
+            else:
+                c1 = x.sel("Cell", tm)
+                prover.goal(f"C19/{base}/fault:nothing-memoised", x,
+                            z3.And(bs.dict_has(c1, tkey) == bs.dict_has(cache0, tkey),
+                                   z3.Implies(bs.dict_has(c1, tkey), bs.dict_get(c1, tkey) == bs.dict_get(cache0, tkey))),
+                            info=ctx)
             continue
+        if faulted:
+            # a fault was swallowed: the verdict and the cache must still be those of the value (obligations below)
+            ctx = dict(ctx, swallowed_fault=True)
         prover.goal(f"C19/{base}/ensures:result-is-first-match", x, to_val(r) == fm1, info=ctx)
         cache1 = x.sel("Cell", tm)
         prover.goal(f"C19/{base}/cache-invariant-preserved:same-type-same-class", x,
